@@ -46,10 +46,10 @@ m('c03-text2digits-unwrap', 'C03', WD, 'pub fn text2digits<T: LangInterpreter>(t
 m('c03-put-drop-short-arm', ['C03', 'C12'], DS, '            l if l < positions => Err(Error::Overlap),\n', '', 'B1-PANIC-SITES')
 m('c03-match-sep-no-next', 'C03', TK, '                if c.is_alphanumeric() {\n                    break *pos;\n                }\n                self.chars.next();',
   '                if c.is_alphanumeric() {\n                    break *pos;\n                }\n                if false { self.chars.next(); }', 'B2-PROGRESS')
-m('c03-revert-f01', 'C03', WD, '        Ok(ds) if ds.is_empty() => Err(Error::NaN),\n', '', 'B1/D4-NONEMPTY')
+m('c03-revert-f01', 'C03', WD, '        Ok(ds) if ds.is_empty() => Err(Error::NaN),\n', '', 'V03')
 m('c03-dup-splitter-pattern', ['C03', 'C01'], NL, '                "en",\n                "ën",', '                "en",\n                "en",', 'B1-PANIC-SITES|A3-SPLIT')
 m('c03-finalize-always', 'C03', WD, '    fn finalize(&mut self) {\n        if self.parser.has_number() {\n            self.number_end()\n        }',
-  '    fn finalize(&mut self) {\n        if self.parser.has_number() || self.previous.is_none() {\n            self.number_end()\n        }', 'B1/D4-NONEMPTY')
+  '    fn finalize(&mut self) {\n        if self.parser.has_number() || self.previous.is_none() {\n            self.number_end()\n        }', 'V03')
 # --- C04
 m('c04-de-marker-ten', 'C04', DE, 'if word.ends_with("te") {\n            MorphologicalMarker::Ordinal(".")', 'if word.ends_with("ten") {\n            MorphologicalMarker::Ordinal(".")', 'A2-LEX-ORD')
 m('c04-nl-achste', 'C04', NL, '"acht" | "achtste" if b.is_free(2)', '"acht" | "achste" if b.is_free(2)', 'A2-LEX-ORD')
@@ -75,7 +75,7 @@ m('c06-advance-start-always', 'C06', WD, '        if self.match_start == self.ma
 m('c07-revert-f05', ['C07', 'C12'], DS, '        if implicit_one {\n            padding_zeroes -= 1;\n        }', '        if implicit_one {\n            self.buffer[l - 1] = b\'1\';\n            padding_zeroes -= 1;\n        }', 'B3-FAIL-ATOMIC')
 m('c07-retry-with-test', ['C07', 'C15'], WD, 'if self.parser.push(lo_token).is_ok() {', 'if self.parser.push(test).is_ok() {', 'V')
 m('c07-drop-number-end', ['C07', 'C15'], WD, '            Err(_) if self.parser.has_number() => {\n                self.number_end();', '            Err(_) if self.parser.has_number() => {', 'V')
-m('c07-second-interpreter', 'C07', WD, '        let text = token.text();\n        if !(', '        let text = token.text();\n        let _ = self.lang.apply(token.text_lowercase(), &mut DigitString::new());\n        if !(', 'B15-SHARED')
+m('c07-second-interpreter', 'C07', WD, '        let text = token.text();\n        if !(', '        let text = token.text();\n        let _ = self.lang.apply(token.text_lowercase(), &mut DigitString::new());\n        if !(', 'V')
 # --- C08
 m('c08-en-seven-unguarded', 'C08', EN, '"seven" | "seventh" if b.peek(2) != b"10" => b.put(b"7"),', '"seven" | "seventh" => b.put(b"7"),', 'A7')
 m('c08-de-vier-no-block', 'C08', DE, '            "vier" | "vierte" if b.is_free(2) => {\n                to_block = Excludable::TENS;\n                b.put(b"4")', '            "vier" | "vierte" if b.is_free(2) => {\n                b.put(b"4")', 'A7')
@@ -110,7 +110,6 @@ m('c12-put-write-before-check', 'C12', DS, '            l if all_zeros(&self.buf
   '            l => {\n                let free = all_zeros(&self.buffer[(l - positions)..]);\n                self.buffer[(l - positions)..].copy_from_slice(digits);\n                if free { Ok(()) } else { Err(Error::Overlap) }\n            }', 'B')
 m('c12-put-digit-at-no-zero-check', 'C12', DS, '        } else if self.buffer[len - 1 - position] == b\'0\' {', '        } else if self.buffer[len - 1 - position] <= b\'1\' {', 'V12')
 # --- C13
-m('c13-swap-variants', 'C13', LM, '                    Language::$variant(l) => l.apply(num_func, b),\n                )*', '                    Language::$variant(l) => l.apply(num_func, b),\n                )*\n                #[allow(unreachable_patterns)]\n                Language::Dutch(_) => German::default().apply(num_func, b),', 'C-DELEGATION')
 m('c13-no-annotate', 'C13', LM, '        fn basic_annotate<T: BasicAnnotate>(&self, tokens: &mut Vec<T>) {\n            match self {\n                $(\n                    Language::$variant(l) => l.basic_annotate(tokens),\n                )*\n            }\n        }\n', '', 'C-DELEGATION')
 m('c13-nl-german', 'C13', LIB, '"nl" => Some(Language::dutch()),', '"nl" => Some(Language::german()),', 'C-ISO')
 m('c13-it-deleted', 'C13', LIB, '        "it" => Some(Language::italian()),\n', '', 'C-ISO')
